@@ -2,6 +2,7 @@ package plainchecks
 
 import (
 	"fmt"
+	"reflect"
 	"testing"
 
 	"github.com/cloudwego/frugal"
@@ -131,6 +132,10 @@ func c18Body(c *explore.C, tier universe.Tier) {
 			c.Fail(msg, &harness.Case{Property: "C18", Class: "recursive-allocates", Type: "universe.R (recursive)"})
 			return
 		}
+		if msg := c18Rotation(ptr, buf); msg != "" {
+			c.Fail(msg, &harness.Case{Property: "C18", Class: "rotation-allocates", Type: "rotation over used static types"})
+			return
+		}
 	}
 	harness.Cur.Outcome(harness.Hash64([]byte(s.String()), []byte{byte(vi), byte(order)}), s.Fields[0].Type.Kind.String())
 	harness.Cur.Sample(func() interface{} {
@@ -166,6 +171,48 @@ func c18Recursive() string {
 		}
 		if a := testing.AllocsPerRun(20, func() { frugal.EncodeObject(buf, nil, v) }); a != 0 {
 			return fmt.Sprintf("EncodeObject of the recursive type nested %d levels allocates %.1f objects per call", d, a)
+		}
+	}
+	return ""
+}
+
+// c18Rotation: a server answers many message kinds in turn.  Rounds over N already-used types
+// (N = 2..all valid generated static types, ~80) must not allocate: no bounded "recently used" cache
+// may stand between a call and the descriptor of a used type.
+func c18Rotation(first interface{}, firstBuf []byte) string {
+	vals := []interface{}{first, &universe.Named{A: 1}, universe.DeepValue(), &universe.R{X: 1, S: &universe.R{X: 2}}}
+	for _, p := range universe.GraphPairs {
+		reachBadA := p.BadA || (p.AB && p.BadB)
+		reachBadB := p.BadB || (p.BA && p.BadA)
+		if !reachBadA {
+			vals = append(vals, reflect.New(p.A).Interface())
+		}
+		if !reachBadB {
+			vals = append(vals, reflect.New(p.B).Interface())
+		}
+	}
+	bufs := make([][]byte, len(vals))
+	for i, v := range vals {
+		bufs[i] = make([]byte, frugal.EncodedSize(v)+8)
+		if i == 0 {
+			bufs[i] = firstBuf
+		}
+		if _, err := frugal.EncodeObject(bufs[i], nil, v); err != nil {
+			return fmt.Sprintf("encode of a valid static type failed: %T: %v", v, err)
+		}
+	}
+	for _, n := range []int{2, 3, 4, 5, 6, 8, 9, 16, 17, 32, 33, 64, 65, len(vals)} {
+		if n > len(vals) {
+			continue
+		}
+		a := testing.AllocsPerRun(5, func() {
+			for i := 0; i < n; i++ {
+				frugal.EncodedSize(vals[i])
+				frugal.EncodeObject(bufs[i], nil, vals[i])
+			}
+		})
+		if a != 0 {
+			return fmt.Sprintf("a round of size/encode calls over %d already-used types allocates %.1f objects", n, a)
 		}
 	}
 	return ""
